@@ -47,6 +47,14 @@ impl VecS {
         }
         None
     }
+    /// `iter().any(|s| Arc::ptr_eq(s, x))`
+    pub fn any_ptr_eq(&self, x: &SinkH) -> (r: bool)
+        ensures r == (exists|j: int| 0 <= j < self.v@.len() && (#[trigger] self.v@[j]).id == x.id),
+    {
+        let p = self.position_ptr_eq(x);
+        proof { if p is Some { assert(self.v@[p->Some_0 as int].id == x.id); } }
+        p.is_some()
+    }
     /// `splice(i..i + 1, iter::empty())`: remove the element at `a`
     pub fn splice_empty(&mut self, a: usize, b: usize)
         requires a < old(self).v@.len(), b == a + 1,
